@@ -70,6 +70,8 @@ func init() {
 					return "timeout"
 				}
 				return fmt.Sprintf("returned-at=%d", t)
+			case "firstcontact":
+				return ratelimiter.VerifFirstContact(num(in, "hosts", 20), num(in, "workers", 8))
 			case "mgr":
 				if m != nil {
 					m.Close()
